@@ -4,6 +4,7 @@ package main
 
 import (
 	"encoding/json"
+	"strings"
 
 	"kinverif/internal/hx"
 )
@@ -123,6 +124,12 @@ func genC13(ctx *hx.Ctx, emit0 func(hx.Case)) {
 				c["ctype"] = "application/json; charset=utf-8"
 			case cnt%7 == 0:
 				c["ctype"] = "application/json;charset=UTF-8"
+			}
+		}
+		// a body text that is not what the JSON encoder would write (leading blank): a re-encoding shows in the bytes
+		if bt, ok := c["body"].(string); ok && cnt%5 == 0 && len(bt) > 0 && (bt[0] == '{' || bt[0] == '[') {
+			if ct, _ := c["ctype"].(string); strings.Contains(ct, "json") || strings.Contains(ct, "yaml") {
+				c["body"] = " " + bt
 			}
 		}
 		if sec, ok := c["sec"].(c13jm); ok && sec["reqs"] != nil && cnt%2 == 0 {
@@ -298,7 +305,8 @@ func genC13(ctx *hx.Ctx, emit0 func(hx.Case)) {
 	sB := c13Obj(c13jm{"a": c13Str(), "e": c13Int("default", 3)})
 	headers := []string{"application/json", "application/json; charset=utf-8", "application/json;charset=utf-8", "application/json ; charset=utf-8",
 		"APPLICATION/JSON", "application/problem+json", "application/problem+json; charset=utf-8", "application/hal+json", "application/vnd.api+json",
-		"text/plain", "application/xml", "", "application", "application/json-patch+json"}
+		"text/plain", "application/xml", "", "application", "application/json-patch+json", "application/ld+json; charset=utf-8",
+		"application/yaml", "application/x-yaml", "application/yaml; charset=utf-8"}
 	contents := [][]any{
 		{c13jm{"key": "application/json", "schema": s0}},
 		{c13jm{"key": "application/json; charset=utf-8", "schema": sB}, c13jm{"key": "application/json", "schema": s0}},
@@ -309,10 +317,18 @@ func genC13(ctx *hx.Ctx, emit0 func(hx.Case)) {
 		{},
 		{c13jm{"key": "application/json", "schema": nil}},
 		{c13jm{"key": "text/plain", "schema": c13Str()}, c13jm{"key": "application/hal+json", "schema": sB}},
+		{c13jm{"key": "application/yaml", "schema": s0}, c13jm{"key": "application/ld+json", "schema": sB}},
+		{c13jm{"key": "application/x-yaml", "schema": sB}, c13jm{"key": "application/*", "schema": s0}},
+	}
+	isYAML := func(h string) bool {
+		return strings.HasPrefix(h, "application/yaml") || strings.HasPrefix(h, "application/x-yaml")
 	}
 	for _, h := range headers {
 		for _, content := range contents {
 			for _, body := range []any{`{}`, `{"a":"x"}`, `{"a":"x","d":1,"e":2}`, `not json`, ` {"a" : "x"} `} {
+				if isYAML(h) && body == `not json` {
+					continue // a YAML decoder reads this text as a string: outside the trusted "JSON text = same value" reading
+				}
 				for o := 0; o < 3; o++ {
 					opts := c13Opts(o == 1, o == 2)
 					emit0(hx.Case{"opts": opts, "sec": c13NoSec, "stream": c13jm{"getBody": []string{"ok", "nil", "fails"}[o], "cl": "len"}, "body": body, "ctype": h,
@@ -388,6 +404,38 @@ func genC13(ctx *hx.Ctx, emit0 func(hx.Case)) {
 						emit(hx.Case{"opts": c13Opts(fl&2 != 0, false), "sec": c13NoSec, "stream": c13StreamOK, "body": nil, "ctype": "",
 							"bodySpec": c13NoBodySpec, "params": []any{p}, "store": store})
 					}
+				}
+			}
+		}
+	}
+
+	// ---- block H: a property that is PRESENT WITH THE VALUE null (the class of the repaired finding #24): type × nullable ×
+	// default × readOnly × required × where the object sits (top, nested, array item, composition branch) × options
+	for _, ty := range []string{"integer", "string"} {
+		for fl := 0; fl < 16; fl++ {
+			a := c13jm{"type": ty}
+			if fl&1 != 0 {
+				a["nullable"] = true
+			}
+			if fl&2 != 0 {
+				a["default"] = map[string]any{"integer": 1, "string": "d"}[ty]
+			}
+			if fl&4 != 0 {
+				a["readOnly"] = true
+			}
+			obj := c13Obj(c13jm{"a": a, "z": c13Str("default", "w")})
+			if fl&8 != 0 {
+				obj["required"] = []any{"a"}
+			}
+			ok := map[string]any{"integer": 5, "string": "x"}[ty]
+			for _, b := range []any{c13jm{}, c13jm{"a": nil}, c13jm{"a": ok}, c13jm{"a": nil, "z": nil}, c13jm{"z": nil}} {
+				for o := 0; o < 4; o++ {
+					emit(c13BodyCase(obj, b, o == 1, o == 2, o == 3))
+				}
+				emit(c13BodyCase(c13Obj(c13jm{"n": obj}), c13jm{"n": b}, false, false, false))
+				emit(c13BodyCase(c13Arr(obj), []any{b, c13jm{}}, false, false, false))
+				for _, kind := range []string{"anyOf", "oneOf", "allOf"} {
+					emit(c13BodyCase(c13jm{kind: []any{obj, c13Obj(c13jm{"a": c13jm{"type": "boolean", "nullable": true, "default": true}})}}, b, false, fl&1 != 0, false))
 				}
 			}
 		}
@@ -651,10 +699,13 @@ func genC13(ctx *hx.Ctx, emit0 func(hx.Case)) {
 		bodySpec := c13jm{"present": !r.Chance(5), "required": r.Chance(30), "schema": schema}
 		if r.Chance(3) {
 			ct = "text/plain"
-		} else if !c13HasComb(schema) && r.Chance(30) {
-			// other media types only with composition-free schemas (whether a default was set inside a discarded
-			// candidate copy is not modelled; only application/json tolerates an unnecessary re-encoding)
+		} else if r.Chance(30) {
+			// Under a YAML media type only JSON texts are sent.
 			ct = hx.Pick(r, headers)
+			bt, isText := body.(string)
+			if isYAML(ct) && (!isText || !json.Valid([]byte(bt))) {
+				ct = hx.Pick(r, headers[:15])
+			}
 			content := []any{c13jm{"key": hx.Pick(r, []string{"application/json", "application/*", "*/*", "application/problem+json", ct}), "schema": schema}}
 			if r.Bool() {
 				content = append(content, c13jm{"key": hx.Pick(r, []string{"application/hal+json", "application/*", "text/plain"}), "schema": hx.Pick(r, []any{sB, nil, schema})})
